@@ -5501,3 +5501,37 @@ _twin_mut('C12', 'w7-dk-helpers-salt-after-passphrase', 'C12-ref20', 'C12.1', [(
 _twin_mut('C12', 'w7-dk-helpers-contexts-floor', 'C12-ref20', 'C12.2', [("        ctx = -(-keylen // hashlen)\n", "        ctx = keylen // hashlen\n")])
 _twin_mut('C07', 'w7-pubkey-override-keeps-private-subkey', 'C07-ref20', 'C07.1', [("    def _new_public_packet(self):\n        return PubSubKeyV4()\n", "    def _new_public_packet(self):\n        return PrivSubKeyV4()\n")])
 _twin_mut('C18', 'w7-pubkey-override-keeps-private-subkey', 'C07-ref20', 'C18.6', [("    def _new_public_packet(self):\n        return PubSubKeyV4()\n", "    def _new_public_packet(self):\n        return PrivSubKeyV4()\n")])
+# ---- wave 7 (w7fix-C): the group key kept in a `nonlocal` variable of a factory closure instead of an instance attribute
+_GRP_CLS = "            class PktGrouper(object):\n                def __init__(self):\n                    self.last = None\n\n                def __call__(self, pkt):\n" + GROUPER + "            return PktGrouper()\n"
+_GRP_NL = "            last = None\n\n            def grouper(pkt):\n                nonlocal last\n                if %s:\n                    last = %s\n                return last\n            return grouper\n"
+_GRP_KEY = "'{:02X}_{:s}'.format(id(pkt), pkt.__class__.__name__)"
+T('C14', 'twin-grouper-nonlocal', PGP, _GRP_CLS, _GRP_NL % ("pkt.header.tag != PacketTag.Signature", _GRP_KEY))
+M('C14', 'grouper-nonlocal-splits-on-signatures', PGP, _GRP_CLS, _GRP_NL % ("pkt.header.tag != PacketTag.Trust", _GRP_KEY), 'C14.3')
+M('C14', 'grouper-nonlocal-key-not-unique', PGP, _GRP_CLS, _GRP_NL % ("pkt.header.tag != PacketTag.Signature", "pkt.__class__.__name__"), 'C14.3')
+M('C14', 'grouper-nonlocal-forgotten', PGP, _GRP_CLS, (_GRP_NL % ("pkt.header.tag != PacketTag.Signature", _GRP_KEY)).replace("                nonlocal last\n", "                last = None\n"), 'C14.3')
+
+# ---- wave 7 (w7fix-C): the scan of KeyAction.usage in a private method that returns from inside its loop
+_SCAN_OLD = ("        if len(self.flags):\n            for _key in _preiter(key, key.subkeys.values()):\n                if self.flags & set(_key._get_key_flags(user)):\n                    break\n\n"
+             "            else:  # pragma: no cover\n                warning = \"Key {keyid:s} does not have the required usage flag {flags:s}\".format(**em)\n"
+             "                if key._require_usage_flags:\n                    raise PGPError(warning)\n                else:\n                    logging.warning(warning)\n\n"
+             "        else:\n            _key = key\n")
+_SCAN_NEW = "        _key = self._select_key(key, user, em)\n"
+
+
+def _scan_method(noflags="        if not self.flags:\n            return key\n\n", cands="[key] + list(key.subkeys.values())",
+                 test="self.flags & set(candidate._get_key_flags(user))", enforce="        if key._require_usage_flags:\n            raise PGPError(warning)\n\n",
+                 hit="return candidate", last="return candidate"):
+    return ("    def _select_key(self, key, user, em):\n" + noflags + "        candidate = key\n        for candidate in " + cands + ":\n"
+            "            if " + test + ":\n                " + hit + "\n\n"
+            "        warning = \"Key {keyid:s} does not have the required usage flag {flags:s}\".format(**em)\n" + enforce +
+            "        logging.warning(warning)\n        " + last + "\n\n    @contextlib.contextmanager\n    def usage(self, key, user):\n")
+
+
+_SCAN_AT = "    @contextlib.contextmanager\n    def usage(self, key, user):\n"
+T('C16', 'twin-usage-select-method-early-return', DE, _SCAN_OLD, _SCAN_NEW, more=[(DE, _SCAN_AT, _scan_method())])
+M('C16', 'select-method-subkeys-only', DE, _SCAN_OLD, _SCAN_NEW, 'C16.3', more=[(DE, _SCAN_AT, _scan_method(cands="list(key.subkeys.values())"))])
+M('C16', 'select-method-no-enforcement', DE, _SCAN_OLD, _SCAN_NEW, 'C16.3', more=[(DE, _SCAN_AT, _scan_method(enforce=""))])
+M('C16', 'select-method-returns-addressed-key-on-hit', DE, _SCAN_OLD, _SCAN_NEW, 'C16.3', more=[(DE, _SCAN_AT, _scan_method(hit="return key"))])
+M('C16', 'select-method-union-instead-of-intersection', DE, _SCAN_OLD, _SCAN_NEW, 'C16.3', more=[(DE, _SCAN_AT, _scan_method(test="self.flags | set(candidate._get_key_flags(user))"))])
+M('C16', 'select-method-flagless-falls-into-scan', DE, _SCAN_OLD, _SCAN_NEW, 'C16.3', more=[(DE, _SCAN_AT, _scan_method(noflags="        if not self.flags:\n            return None\n\n"))])
+M('C16', 'usage-flagless-yields-nothing', DE, "        else:\n            _key = key\n\n        if _key is not key:", "        else:\n            _key = None\n\n        if _key is not key:", 'C16.3')
